@@ -10,11 +10,21 @@ use serde_json::{json, Value};
 use std::collections::BTreeMap;
 
 const SPELLINGS: &[&str] = &["", "^", "~", "=", ">=", ">", "^ ", ">= ", "= "];
-const PLACEMENTS: &[&str] = &["none", "abicoder-before", "experimental-before", "abicoder-after", "both-sides", "experimental-after-contract"];
+const PLACEMENTS: &[&str] = &[
+    "none", "abicoder-before", "experimental-before", "abicoder-after", "both-sides", "experimental-after-contract",
+    // comments written inside the directive (for this lexer part of the pragma value): versions named there do not count
+    "comment-in-front-of-version", "comment-behind-version-low", "comment-behind-version-high", "line-comment-behind-version",
+];
 
 fn template(v: (u64, u64, u64), spelling: &str, placement: &str, using_level: u8) -> String {
     let mut s = String::new();
-    let pragma = format!("pragma solidity {}{}.{}.{} ;\n", spelling, v.0, v.1, v.2);
+    let pragma = match placement {
+        "comment-in-front-of-version" => format!("pragma solidity /* was 0.7.6 , soon 0.9.1 */ {}{}.{}.{} ;\n", spelling, v.0, v.1, v.2),
+        "comment-behind-version-low" => format!("pragma solidity {}{}.{}.{} /* was 0.7.6 */ ;\n", spelling, v.0, v.1, v.2),
+        "comment-behind-version-high" => format!("pragma solidity {}{}.{}.{} /* until 0.9.1 */ ;\n", spelling, v.0, v.1, v.2),
+        "line-comment-behind-version" => format!("pragma solidity {}{}.{}.{} // 0.7.0 or 0.9.0\n ;\n", spelling, v.0, v.1, v.2),
+        _ => format!("pragma solidity {}{}.{}.{} ;\n", spelling, v.0, v.1, v.2),
+    };
     match placement {
         "abicoder-before" => s.push_str("pragma abicoder v2 ;\n"),
         "experimental-before" => s.push_str("pragma experimental ABIEncoderV2 ;\n"),
@@ -115,7 +125,7 @@ fn case(check: &str, text: &str, v: Option<(u64, u64, u64)>, placement: &str, st
             let misleading = if v.0 >= 1 { "major>=1" } else if v.1 >= 9 { "minor>=9" } else if v.1 == 8 { "minor=8" } else { "minor<8" };
             let kind = o.sig.split(':').next().unwrap_or("").to_string();
             if kind == "missed" || kind == "spurious" {
-                o.sig = format!("{kind}:{pat}:{}:{misleading}:{}", side(t), if placement == "none" || placement.contains("after") { "solidity-pragma-first" } else { "other-pragma-first" });
+                o.sig = format!("{kind}:{pat}:{}:{misleading}:{}", side(t), if placement.contains("comment") { "comment-inside-pragma" } else if placement == "none" || placement.contains("after") { "solidity-pragma-first" } else { "other-pragma-first" });
             }
         }
     }
